@@ -6,6 +6,9 @@
 //   mut <hex> <k> <j> <how>   decode, detach child j of node k with remove|removee|clear|put (or araw_remove|araw_clear|araw_resize|araw_assign on children()), release the rest, dump the child
 //   desc <hex>                decode, then `while (first child is an element) e = e.child(0);` on the only handle, dump e
 //   deep <n> <kind>           decode a document nested n levels (0: closed, 1: closed then mismatched end tag, 2: unclosed, 3: closed around the text "x")
+//   own <ops...>              a history of DOM mutators over four handle variables (n<v> v=Xml("e"), a<v><w> v<<w, r<v><j> v.remove(j),
+//                             c<v> v.clear(), k<v><w><j> v=w.child(j), s<v><w> v=w, d<v> destroy v, u<v><w> v=w.parent()); after every op per
+//                             variable "-" or <lowest variable holding the same node>/<parent: n | variable | x>/<children: variable | x>
 // tree tokens (preorder): E <hextag> <nattr> {<hexname> <hexval>} <nchildren> children... | T <hextext>
 // dump: element  E<hextag>[<hexname>=<hexval>,...]{<flag><child> ...}   text  T<hex>
 //       flag '+' iff child.parent() == containing element, '!' otherwise; the whole dump is prefixed with
@@ -116,9 +119,60 @@ static std::string deepShow(const Xml& root)
 	return "deep depth=" + str(depth) + " nodes=" + str(nodes) + " badparents=" + str(bad) + " text=" + hex(*tx, tx.length());
 }
 
+static std::string ownCanon(Xml* v[4], const Xml& x)
+{
+	for (int j = 0; j < 4; j++)
+		if (v[j] && *v[j] == x) return str(j);
+	return "x";
+}
+
+static std::string ownRun(const Toks& t)
+{
+	Xml* v[4] = { 0, 0, 0, 0 };
+	std::string out;
+	for (size_t k = 1; k < t.size(); k++) {
+		const std::string& o = t[k];
+		int a[3] = { 0, 0, 0 };
+		for (size_t i = 1; i < o.size() && i < 4; i++) a[i - 1] = o[i] - '0';
+		int x = a[0] % 4, w = a[1] % 4;
+		Xml* nv = 0;      // new value of the handle variable x (acquired before the old one is released)
+		bool drop = false;
+		switch (o[0]) {
+		case 'n': nv = new Xml(Xml("e")); break;
+		case 'a': if (v[x] && v[w]) *v[x] << *v[w]; break;
+		case 'r': if (v[x] && v[x]->numChildren() > 0) v[x]->remove(a[1] % v[x]->numChildren()); break;
+		case 'c': if (v[x]) v[x]->clear(); break;
+		case 'k': if (v[w] && v[w]->numChildren() > 0) nv = new Xml(v[w]->child(a[2] % v[w]->numChildren())); break;
+		case 's': if (v[w]) nv = new Xml(*v[w]); break;
+		case 'd': drop = true; break;
+		case 'u': if (v[w]) { Xml p = v[w]->parent(); if (p.isnull()) drop = true; else nv = new Xml(p); } break;
+		default: return "bad-op";
+		}
+		if (nv) {
+			if (v[x]) { *v[x] = *nv; delete nv; }   // NodeBase::operator=
+			else v[x] = nv;
+		}
+		else if (drop) { delete v[x]; v[x] = 0; }
+		if (k > 1) out += "|";
+		for (int i = 0; i < 4; i++) {
+			if (i) out += " ";
+			if (!v[i]) { out += "-"; continue; }
+			out += ownCanon(v, *v[i]) + "/";
+			Xml p = v[i]->parent();
+			out += p.isnull() ? std::string("n") : ownCanon(v, p);
+			out += "/";
+			for (int c = 0; c < v[i]->numChildren(); c++) out += ownCanon(v, v[i]->child(c));
+		}
+	}
+	for (int i = 0; i < 4; i++) delete v[i];
+	// leaks / use after free / double free are for LSan / ASan to report: the model must predict none
+	return out + " end leak=0 fault=false counts=true";
+}
+
 static std::string step(const Toks& t)
 {
 	const std::string& op = t[0];
+	if (op == "own") return ownRun(t);
 	if (op == "deep" && t.size() == 3) {
 		// documents nested N levels, built here (no model side: judged by the plugin's `extra`)
 		long long n = num(t[1]);
